@@ -3,6 +3,7 @@ package catalog
 import (
 	"errors"
 	"fmt"
+	"strings"
 
 	schema "github.com/jsightapi/jsight-schema-core"
 	"github.com/jsightapi/jsight-schema-core/bytes"
@@ -209,7 +210,7 @@ func (c *Catalog) AddHTTPMethod(d directive.Directive) *jerr.JApiError {
 		return d.KeywordError(err.Error())
 	}
 
-	if c.Interactions.Has(httpID) {
+	if c.hasInteraction(httpID) {
 		return d.KeywordError(fmt.Sprintf("%s %q", jerr.MethodIsAlreadyDefinedInResource, httpID.String()))
 	}
 
@@ -226,6 +227,22 @@ func (c *Catalog) AddHTTPMethod(d directive.Directive) *jerr.JApiError {
 	c.Interactions.Set(httpID, in)
 
 	return nil
+}
+
+// hasInteraction tells if the catalog already holds this interaction, or one
+// whose id is written the same way: the text of the id is the key of the
+// interaction in the serialised catalog, and two different ids can have the
+// same text (a blank inside a quoted path or method name, bytes which are not
+// valid UTF-8).
+func (c *Catalog) hasInteraction(id InteractionID) bool {
+	if c.Interactions.Has(id) {
+		return true
+	}
+	key := strings.ToValidUTF8(id.String(), "\uFFFD")
+	_, found := c.Interactions.Find(func(k InteractionID, _ Interaction) bool {
+		return strings.ToValidUTF8(k.String(), "\uFFFD") == key
+	})
+	return found
 }
 
 func (c *Catalog) AddDescriptionToHTTPMethod(d directive.Directive, text string) error {
@@ -530,7 +547,7 @@ func (c *Catalog) AddJsonRpcMethod(d directive.Directive) *jerr.JApiError {
 		return d.KeywordError(err.Error())
 	}
 
-	if c.Interactions.Has(rpcId) {
+	if c.hasInteraction(rpcId) {
 		return d.KeywordError(fmt.Sprintf("%s %q", jerr.MethodIsAlreadyDefinedInResource, rpcId.String()))
 	}
 
